@@ -10,6 +10,14 @@ catalogue, every product of <= 2 gate symplectics, every simple labelled graph .
 matrix is pushed through the real NumPy-connector implementation and the result is checked
 against the defining identity, computed with plain numpy in mc/refmodel/decompref.py.
 
+A "history" family (mc/c15_history.py) does what the one-call-one-use families cannot: for
+every entry point (clements, inverse_clements, instructions_from_decomposition, the four
+weight-vector functions, takagi, williamson, euler), every dimension d <= 4 and every ordered
+pair (and the ordered triples of the first three) of DIFFERENT representative inputs of that
+dimension it performs call(A); call(B); [call(C)] and only then uses the results: every
+returned object must still be what its call returned (bitwise snapshot) and must still
+reconstruct its own input.
+
 VERIF_SEED only changes the "generic" catalogue entries (Haar unitaries, generic angles);
 every family is enumerated for every seed.
 """
@@ -918,8 +926,76 @@ def _run_case(ctx, kind, fam, label, M, extra, stats_acc=None):
 
 
 def replay(ctx, case, signature):
+    if case.get("family") == "history":
+        mats = [_dec(e) for e in case["matrices"]]
+        from mc import c15_history as H
+
+        oks = [H.single_ok(case["kind"], case["site"], M) for M in mats]
+        _run_history(ctx, case["kind"], case["site"], case["labels"], mats, oks)
+        return
     M = _dec(case["matrix"])
     _run_case(ctx, case["kind"], case["family"], case["label"], M, case.get("extra") or {})
+
+
+# =======================================================================================
+# call histories (mc/c15_history.py)
+
+
+def _hdigest(fails):
+    return [tuple(sorted((k, str(v)) for k, v in f.items())) for f in fails]
+
+
+def _run_history(ctx, kind, site, labels, mats, oks):
+    from mc import core
+    from mc import c15_history as H
+
+    fails = H.eval_history(kind, site, mats, oks)
+    ctx.count("evaluations")
+    ctx.count("cases:%s/history" % kind)
+    ctx.count("history_calls", len(mats))
+    ctx.count("oracle_comparisons", len(mats) + sum(1 for o in oks if o))
+    ctx.count("history_sequences_len%d" % len(mats))
+    h = hashlib.sha1(("history:%s:%s" % (kind, site)).encode())
+    for M in mats:
+        h.update(_key(kind, M, None).encode())
+    ctx.note_distinct(h.hexdigest())
+    if fails:
+        again = H.eval_history(kind, site, mats, oks)
+        if _hdigest(again) != _hdigest(fails):
+            raise core.HarnessError("HARNESS-NONDETERMINISM C15 history %s/%s %s: %s vs %s" % (kind, site, labels, _hdigest(fails), _hdigest(again)))
+        for f in fails:
+            ctx.count("violating_cases:%s" % kind)
+            sig = {"check": "C15", "sub": f["sub"], "site": f["site"]}
+            if "exc" in f:
+                sig["exc"] = f["exc"]
+            case = {"kind": kind, "family": "history", "site": site, "labels": labels, "matrices": [_enc(M) for M in mats]}
+            ctx.violation(sig, case, "%s/history %s after calls on %s: %s" % (kind, site, core.jsonable(labels), f["detail"]))
+    return fails
+
+
+def _work_history(ctx, kind):
+    from mc import c15_history as H
+
+    reps = H.representatives(kind, ctx.tier, ctx.seed)
+    sampled = False
+    for site in H.SITES[kind]:
+        for d in sorted(reps):
+            rs = reps[d]
+            # single pass: the call alone, result used at once (the oracle of the other families)
+            oks = []
+            for fam, label, M in rs:
+                ok = H.single_ok(kind, site, M)
+                ctx.count("history_single_calls")
+                if not ok:
+                    ctx.count("history_inputs_excluded_single_call_fails")
+                oks.append(ok)
+            for seq in H.sequences(len(rs)):
+                labels = [dict(rs[i][1], family=rs[i][0]) for i in seq]
+                fails = _run_history(ctx, kind, site, labels, [rs[i][2] for i in seq], [oks[i] for i in seq])
+                if not sampled and kind == "clements" and site == "get_decomposition_from_weights" and d == 3 and len(seq) == 3:
+                    sampled = True
+                    ctx.sample({"decomposition": kind, "family": "history", "site": site, "calls_in_order": labels,
+                                "then": "snapshots compared, every result verified against its own input", "violations": [f["sub"] for f in fails]})
 
 
 # =======================================================================================
@@ -963,6 +1039,10 @@ def _all_items(tier):
             np_ = parts.get((kind, fam, n), 1)
             for p in range(np_):
                 items.append((kind, fam, n, p, np_))
+    from mc import c15_history as H
+
+    for kind in H.KINDS:  # call histories: one item per decomposition
+        items.append((kind, "history", 0, 0, 1))
     return items
 
 
@@ -978,7 +1058,7 @@ def run(ctx, builddir):
     items = _all_items(ctx.tier)
     only = getattr(ctx, "only", None)
     if only:
-        items = [it for it in items if it[0] == only or "%s/%s" % (it[0], it[1]) == only]
+        items = [it for it in items if it[0] == only or it[1] == only or "%s/%s" % (it[0], it[1]) == only]
     items = _order(items)
     ctx.rule = (
         "every matrix of every structured family is one case (families and bounds in coverage.families); a case is "
@@ -986,7 +1066,8 @@ def run(ctx, builddir):
         "distinct = distinct (decomposition, dtype, matrix bytes, extra parameters) keys, so a matrix reached through two "
         "families counts once; non-trivial = every case (each runs the complete decomposition and all of its oracles); "
         "seeded 'generic' entries (marked * / family 'generic') are included in the counts but every degenerate family "
-        "is enumerated completely for every seed"
+        "is enumerated completely for every seed; family 'history': one case = one ordered sequence of 2 or 3 different "
+        "representative inputs of one dimension pushed through ONE entry point before any result is used (distinct = entry point + matrices in order)"
     )
     ctx.assume("tolerance |a-b| <= 1e-9 + 1e-9*scale with scale = max(1, spectral norm of the input) (||S||^2 for the symplectic condition, max(1, n) for the mean photon number); unitarity defects <= 2e-9; no tolerance is looser than the default")
     ctx.assume("NumPy connector only (other connectors are C09's subject)")
@@ -997,6 +1078,10 @@ def run(ctx, builddir):
     ctx.assume("the Interferometer gate of GaussianSimulator applies the matrix directly and uses no decomposition: nothing to check there")
     ctx.assume("when inputs of the non-degenerate class ('distinct_values', 'regular') violate the same (site, via, oracle) too, input_class is reported as 'any' (it does not discriminate); likewise dtype 'any' when both dtypes fail")
     ctx.assume("violation signatures carry site/oracle/input_class/dtype; input_class is computed by the harness from the spectrum of the INPUT (repeated / near-repeated / distinct singular, symplectic or squeezing values; Clements: an entry with 1e-12 < |u| <= 1e-8); a failure of euler or Graph whose inner takagi() call already violates the Takagi contract on the matrix handed to it is attributed to site=takagi with via=euler/Graph")
+    ctx.assume("history family: representatives are 4-6 members per dimension of the structured families (d <= 4; williamson d <= 3 in the quick tier, euler d <= 3), "
+               "all ordered pairs + the 6 ordered triples of the first three; 'unchanged' means bitwise equality of the numbers of the returned object "
+               "(arrays, Decomposition angles and modes, instruction kinds/modes/parameters) with a snapshot taken right after the call that returned it; "
+               "an input that fails its oracle in a single call is excluded from the correctness oracle of the histories (reported by the structured families)")
     core.pmap(ctx, "mc.checks.c15", "work", items, builddir)
     _collapse_signatures(ctx)
     c = ctx.counters
@@ -1007,9 +1092,11 @@ def run(ctx, builddir):
         "families": fams,
         "cases_per_decomposition": {k: sum(v for f, v in fams.items() if f.startswith(k + "/")) for k in KINDS},
         "work_items": len(items),
+        "history": {k[len("history_"):]: v for k, v in sorted(c.items()) if k.startswith("history_")},
         "explanation": "evaluations = matrices pushed through a decomposition (each with all of its oracles); oracle_comparisons = individual "
         "reconstruction / unitarity / symplecticity / round-trip comparisons; families = measured number of cases per family; "
-        "max_* = largest error observed on passing cases (relative to the stated scale)",
+        "max_* = largest error observed on passing cases (relative to the stated scale); history = call sequences (calls = library calls whose "
+        "result was kept and used only after the whole sequence; single_calls = the same calls alone)",
     }
 
 
@@ -1039,6 +1126,9 @@ def _collapse_signatures(ctx):
 
 def work(ctx, item):
     kind, fam, n, part, nparts = item
+    if fam == "history":
+        _work_history(ctx, kind)
+        return
     gen = {
         "clements": _clements_cases,
         "takagi": _takagi_cases,
